@@ -110,6 +110,10 @@ fn write_project(p: &Project, rng: &mut Rng, identity: bool) -> Vec<String> {
   let unames = if identity { vec!["g1.yml", "g2.yml"] } else { permute(&["g1.yml", "g2.yml"], rng) };
   p.write(&format!("utils/{}", unames[0]), br#"{"id": "gA", "language": "JavaScript", "rule": {"any": [{"matches": "gB"}, {"kind": "number"}]}}"#);
   p.write(&format!("utils/{}", unames[1]), br#"{"id": "gB", "language": "JavaScript", "rule": {"kind": "call_expression"}}"#);
+  // a global utility that reaches another one only through one of its LOCAL utilities, and a rule whose kinds come from
+  // it alone: the order in which the global utilities are registered must not show
+  p.write("utils/g3.yml", br#"{"id": "gC", "language": "JavaScript", "rule": {"matches": "loc"}, "utils": {"loc": {"any": [{"matches": "gB"}, {"kind": "string"}]}}}"#);
+  p.write("rules/r7.yml", br#"{"id": "r7", "language": "JavaScript", "severity": "info", "message": "via gC", "rule": {"matches": "gC", "regex": "^(glob|baz)"}}"#);
   // a file claimed by the language globs of two languages, and one rule per language
   p.write("src/both.x", b"foo(a9, x);\n");
   p.write("rules/js-x.yml", br#"{"id": "only-js", "language": "JavaScript", "severity": "info", "message": "js", "rule": {"pattern": "foo($A, x)"}}"#);
